@@ -974,6 +974,21 @@ func incdecTable(c *Ctx, rule string, eu *ssa.Function) {
 		if pf == nil {
 			continue
 		}
+		// a result is handed out only where the assignment succeeded: its error (the fill limit's `index
+		// too large` among them) is not overtaken by a success return
+		if asg.Block().Dominates(rc.Ret.Block()) {
+			tested := false
+			for _, rl := range F.At(rc.Ret.Block()).Rels() {
+				if call, idx := callOf(rl.x); call == asg && idx == 1 && rl.op == relEQ && isNilConst(rl.y) {
+					tested = true
+				}
+			}
+			form := "prefix"
+			if *pf {
+				form = "postfix"
+			}
+			c.check(tested, rule, "incdec-assignment-error "+form, p.InstrPos(rc.Ret), "the "+form+" result is returned where the assignment's error is nil", "the "+form+" form returns its result without having tested the error of the assignment: a refused store (index too large, not assignable) goes unreported and the run continues")
+		}
 		if *pf {
 			c.check(v == "cell{val(asFloat64(&X.Value))}", rule, "incdec-postfix-result", p.InstrPos(rc.Ret), "postfix yields the old number", "the postfix form yields "+v)
 		} else {
